@@ -176,6 +176,9 @@ type Exec struct {
 	assigns    []*Loc
 	assignsReach []Value // everything reachable from these values may be written
 	assignsAny bool
+	noAutoInv  bool
+	AutoInvs   int      // derived search-loop invariants used
+	Notes      []string // non-fatal remarks (dropped invariants, ...)
 }
 
 type frame struct {
@@ -188,6 +191,16 @@ type deferred struct {
 	call *ssa.CallCommon
 	args []Value
 	fn   Value
+}
+
+func (e *Exec) note(format string, a ...interface{}) {
+	m := fmt.Sprintf(format, a...)
+	for _, n := range e.Notes {
+		if n == m {
+			return
+		}
+	}
+	e.Notes = append(e.Notes, m)
 }
 
 func (e *Exec) problem(pos token.Pos, format string, a ...interface{}) {
